@@ -658,6 +658,11 @@ class IntermediateCodeGen(AbstractCodeGen):
         else:
             # oid
             if (defvalType[0][0] == 'ObjectIdentifier' and
+                    isinstance(defval, (str, unicode))):
+                # symbols are registered under their translated names
+                defval = self.transOpers(defval)
+
+            if (defvalType[0][0] == 'ObjectIdentifier' and
                     (defval in self.symbolTable[self.moduleName[0]] or
                      defval in self._importMap)):
 
